@@ -221,6 +221,10 @@ func (c *Ctx) Sample(v interface{}) {
 		return
 	}
 	b, err := json.Marshal(v)
+	if err == nil && len(b) > 64<<10 {
+		// e.g. a history whose template text has megabytes: the evidence file stays readable
+		b, err = json.Marshal(map[string]interface{}{"sample_omitted": fmt.Sprintf("a case of %d bytes (too large for the evidence file)", len(b))})
+	}
 	if err == nil {
 		c.res.Samples = append(c.res.Samples, b)
 	}
